@@ -924,6 +924,7 @@ pub fn cmd_miri_c10(args: &[String]) -> i32 {
 fn miri_c10_history(seed: u64, index: u64, max_steps: usize) -> History {
     let rs = run_seed(seed ^ 0x6d697269, index);
     let mut rng = Rng::new(rs);
+    crate::gen::NO_LARGE_SURFACES.store(true, std::sync::atomic::Ordering::Relaxed);
     let mut h = crate::pairs::gen_c10(&mut rng, false);
     // keep it short: Miri is about three orders of magnitude slower than native code
     h.steps.truncate(max_steps);
